@@ -518,11 +518,6 @@ func (c14) Run(ctx *Ctx, ci interface{}) (o Outcome) {
 	before := snapshotAlign(al)
 	n, L := len(a.Names), len(a.Seqs[0])
 	desc := func() string { return "alignment:\n" + a.String() }
-	defer func() {
-		if c.Cli > 0 && o.V == nil {
-			c.runCLI(ctx, &o, al)
-		}
-	}()
 	defer verifrt.SetMapSeed(0, false)
 
 	guarded := func(what string, f func()) bool {
@@ -544,6 +539,55 @@ func (c14) Run(ctx *Ctx, ci interface{}) (o Outcome) {
 		}()
 		return ok
 	}
+
+	defer func() {
+		if c.Cli > 0 && o.V == nil {
+			c.runCLI(ctx, &o, al)
+		}
+		if o.V == nil && n >= 1 && L >= 1 && Mix(c.MapSeeds[2], "edit")%4 == 0 {
+			// the alignment the statistics were asked of is edited in place (one residue): what it answers then must
+			// be what a fresh alignment of the same content answers - no statistic may remember the columns as they were
+			i, k := int(Mix(c.MapSeeds[2], "row")%uint64(n)), int(Mix(c.MapSeeds[2], "site")%uint64(L))
+			old := a.Seqs[i][k]
+			repl := byte('C')
+			if old == 'C' || old == 'c' {
+				repl = 'G'
+			}
+			spec := AlnSpec{Alphabet: a.Alphabet, Names: a.Names, Seqs: append([]string{}, a.Seqs...)}
+			b := []byte(spec.Seqs[i])
+			b[k] = repl
+			spec.Seqs[i] = string(b)
+			fresh, err := buildOriginal(&spec)
+			if err != nil || fresh.Alphabet() != al.Alphabet() {
+				return
+			}
+			if al.SetSequenceChar(i, k, repl) != nil {
+				return
+			}
+			var sa, sb *statSet
+			verifrt.SetMapSeed(c.MapSeeds[0], true)
+			if !guarded("evaluating the statistics after an edit", func() { sa = c14Eval(c, al) }) {
+				return
+			}
+			verifrt.SetMapSeed(c.MapSeeds[0], true)
+			if !guarded("evaluating the statistics of a fresh alignment", func() { sb = c14Eval(c, fresh) }) {
+				return
+			}
+			o.Add("statistics_after_an_edit_compared_with_a_fresh_alignment", 1)
+			for _, key := range sb.keys {
+				if x, ok := sb.disc[key]; ok && sa.disc[key] != x {
+					o.Fail("stale-after-edit:"+funcOfKey(key), "%s: after row %d, site %d was set to %c in place the alignment answers %s, a fresh alignment of the same content answers %s\nalignment before the edit:\n%s", key, i, k, repl, clip(sa.disc[key], 300), clip(x, 300), a.String())
+					return
+				}
+				if x, ok := sb.floats[key]; ok {
+					if at, bad := floatsDiffer(sa.floats[key], x); bad {
+						o.Fail("stale-after-edit:"+funcOfKey(key), "%s: after row %d, site %d was set to %c in place the alignment's answer differs (index %d) from that of a fresh alignment of the same content\nalignment before the edit:\n%s", key, i, k, repl, at, a.String())
+						return
+					}
+				}
+			}
+		}
+	}()
 
 	// --- determinism under map orders -----------------------------------
 	var sets [4]*statSet
